@@ -1,4 +1,5 @@
 import Saito.Lemmas.Atr
+import Saito.Model.AtrScan
 /-!
 # C13 — automatic rebroadcast preserves ownership at the retention-window edge
 
@@ -307,3 +308,95 @@ example : (atrStep Flags.fixed wP wU wOuts).capped = true ∧ ownBlock Flags.fix
 example : (0 : Nat) < (⟨4, 2, 1, 1, 50, 0⟩ : Slip).amt ∧ (⟨4, 2, 1, 1, 50, 0⟩ : Slip).blk + 5 < 9 := by decide
 
 end Saito.C13
+
+
+/-! ## Bound triples: how the outputs of one transaction are cut into groups (`Saito.AtrScan`)
+
+The amounts of a triple's rebroadcast are outside the model (`Saito.Atr` covers single outputs); the CUT is modelled exactly and
+compared with the real blocks of the triple histories of the atr suite (`scan …` lines). -/
+namespace Saito.C13.Scan
+open Saito.AtrScan
+
+theorem scan_cons_nonbound (t : Nat) (l : List Nat) (h : t ≠ bound) : scan (t :: l) = .single t :: scan l := by
+  match l with
+  | [] => simp [scan]
+  | [b] => simp [scan]
+  | b :: c :: rest =>
+    have : (t == bound) = false := by simpa using h
+    simp [scan, this]
+
+theorem scan_triple (p : Nat) (l : List Nat) (h : p ≠ bound) :
+    scan (bound :: p :: bound :: l) = .triple bound p bound :: scan l := by
+  have : (p != bound) = true := by simpa using h
+  simp [scan, this]
+
+/-- **handled exactly once**: every collected output lands in exactly one group, in order — the groups are a partition of the
+    list, for every list of slip types -/
+theorem scan_flatten (l : List Nat) : (scan l).flatMap Group.slips = l := by
+  induction l using scan.induct with
+  | case1 a b c rest hc ih => simp [scan, hc, Group.slips, ih]
+  | case2 a b c rest hc ih => simp [scan, hc, Group.slips, ih]
+  | case3 a rest hne ih =>
+    match rest, hne with
+    | [], _ => simp [scan, Group.slips]
+    | [b], _ => simp [scan, Group.slips] at ih ⊢
+    | b :: c :: r, hne => exact absurd rfl (hne b c r)
+  | case4 => simp [scan]
+
+/-- what a transaction's outputs are made of: plain outputs (any type but Bound) and triples [Bound, payload, Bound] whose payload
+    is of any type but Bound -/
+inductive Item where
+  | plain (t : Nat) (h : t ≠ bound)
+  | nft (p : Nat) (h : p ≠ bound)
+
+def Item.slips : Item → List Nat
+  | .plain t _ => [t]
+  | .nft p _ => [bound, p, bound]
+
+def Item.group : Item → Group
+  | .plain t _ => .single t
+  | .nft p _ => .triple bound p bound
+
+/-- **a triple stays a triple**: for every sequence of plain outputs and triples the pass cuts exactly along the items — no
+    bound slip is ever handled on its own, whatever the type of the payload -/
+theorem scan_wellformed (items : List Item) : scan (items.flatMap Item.slips) = items.map Item.group := by
+  induction items with
+  | nil => simp [scan]
+  | cons it rest ih =>
+    cases it with
+    | plain t h => simp only [List.flatMap_cons, Item.slips, List.singleton_append, List.map_cons, Item.group]; rw [scan_cons_nonbound _ _ h, ih]
+    | nft p h => simp only [List.flatMap_cons, Item.slips, List.cons_append, List.nil_append, List.map_cons, Item.group]; rw [scan_triple _ _ h, ih]
+
+/-- the outputs of the rebroadcast transactions made from a cut: payloads and plain outputs come back with type ATR, the bound
+    slips as they were -/
+def Item.rebroadcast : Item → Item
+  | .plain _ _ => .plain typATR (by decide)
+  | .nft _ _ => .nft typATR (by decide)
+
+/-- **on every later trip around the window**: what was rebroadcast as a triple is cut as a triple again -/
+theorem scan_after_rebroadcast (items : List Item) :
+    scan ((items.map Item.rebroadcast).flatMap Item.slips) = (items.map Item.rebroadcast).map Item.group :=
+  scan_wellformed _
+
+/-- no group of a well-formed list is a bound slip on its own -/
+theorem no_single_bound (items : List Item) : ∀ g ∈ scan (items.flatMap Item.slips), g ≠ .single bound := by
+  rw [scan_wellformed]
+  intro g hg
+  obtain ⟨it, _, rfl⟩ := List.mem_map.1 hg
+  cases it with
+  | plain t h => intro he; injection he with he; exact h he
+  | nft p h => intro he; cases he
+
+/-- why the payload test is "not Bound" and not "Normal": with the latter a triple that has been rebroadcast once (payload of
+    type ATR) falls apart into three single outputs on its second trip — the bound markers would be rebroadcast as currency -/
+theorem payload_normal_only_breaks_second_trip :
+    scan [bound, typATR, bound] = [.triple bound typATR bound]
+    ∧ scanPayloadNormalOnly [bound, typATR, bound] = [.single bound, .single typATR, .single bound] := by
+  simp [scan, scanPayloadNormalOnly, bound, typATR]
+
+/-- non-vacuity: a transaction with a triple between two plain outputs -/
+example : scan ([Item.plain 0 (by decide), Item.nft 0 (by decide), Item.plain 0 (by decide)].flatMap Item.slips)
+    = [.single 0, .triple bound 0 bound, .single 0] := by
+  simp [scan, Item.slips, bound]
+
+end Saito.C13.Scan
